@@ -101,14 +101,21 @@ def match_terms(ctx, tr, args, ref_terms):
     """greedy matching of library terms to reference terms; every equality is decided by z3"""
     used, result = set(), []
     ref_coeff = [coeff_of(r) for r in ref_terms]
-    for a in args:
+    ref_syms = [r.free_symbols for r in ref_terms]
+    for pos, a in enumerate(args):
         ca, Va, hit = coeff_of(a), None, None
-        for i, r in enumerate(ref_terms):
-            if i in used or ref_coeff[i] != ca:
-                continue
-            Va = Va if Va is not None else tr(a)
-            if holds(ctx, Va, tr(r)):
-                hit = i
+        # both lists usually follow the order of reaction.transitions: try the same position first;
+        # first pass: candidates over the same symbols (angles of the same decay chain), second pass: all
+        order = sorted(enumerate(ref_terms), key=lambda ir: abs(ir[0] - pos))
+        for same_symbols in (True, False):
+            for i, r in order:
+                if i in used or ref_coeff[i] != ca or (ref_syms[i] == a.free_symbols) != same_symbols:
+                    continue
+                Va = Va if Va is not None else tr(a)
+                if holds(ctx, Va, tr(r)):
+                    hit = i
+                    break
+            if hit is not None:
                 break
         if hit is not None:
             used.add(hit)
@@ -280,7 +287,7 @@ def configs(tier):
     names = quick if tier == "quick" else list(REACTIONS)
     for rname in names:
         for formalism in ("helicity", "canonical-helicity"):
-            out.append({"name": f"{rname}|{formalism}", "reaction": rname, "formalism": formalism})
+            out.append({"name": f"{rname}|{formalism}", "reaction": rname, "formalism": formalism, "config_timeout": 900})
     out.append({"name": "J/psi->gamma f0,f2|helicity|couplings", "reaction": "J/psi->gamma f0,f2", "formalism": "helicity", "couplings": True})
     out.append({"name": "J/psi->gamma f0,f2|canonical-helicity|parent-helicities", "reaction": "J/psi->gamma f0,f2", "formalism": "canonical-helicity",
                 "naming": {"insert_parent_helicities": True}})  # fmt: skip
